@@ -1,0 +1,6 @@
+//go:build !verif
+
+package autofile
+
+// see hook_verif.go: without the build tag the hook is an empty function
+func verifAfterWrite(g *Group) {}
